@@ -1,4 +1,5 @@
 import HotstuffModel.Proofs.CommitSeq
+import HotstuffModel.Proofs.NodeInv6
 /-
 The "if" direction of the 2-chain commit rule (C05 is the "only if"): whenever a node processes a
 proposal whose parent and grandparent it has stored and which are of consecutive rounds, it commits
@@ -154,5 +155,158 @@ theorem handleProposal_commits (c : Committee) (s : Node) (b b1 b0 : Block) (h4 
   simp only [hmiss, List.isEmpty_nil, if_true]
   exact processBlock_commits c _ b b1 b0 h41
     (getParent_congr c s _ b hstore havail b1 hp1) (getParent_congr c s _ b1 hstore havail b0 hp0) h2
+
+end HS
+
+namespace HS
+open Node
+
+/-! ### the vote of the good case -/
+
+theorem voteStage_votes (c : Committee) (s : Node) (b : Block)
+    (hp : s.panic = none) (hr : b.round = s.round) (hlv : s.lastVoted < b.round)
+    (h2 : safetyRule2 b = some true) :
+    Out.voted b ∈ (voteStage c s true b).hist := by
+  unfold voteStage
+  simp only [hp, Bool.not_true, Option.isSome_none, Bool.or_self, Bool.false_eq_true, if_false]
+  have hne : (b.round != s.round) = false := by simp [hr]
+  simp only [hne, Bool.false_eq_true, if_false]
+  have hmv : s.makeVote b = (({ s with lastVoted := max s.lastVoted b.round }).emit (.voted b),
+      some { hash := b.digest, round := b.round, author := s.name, sig := ⟨s.name, .vote b.digest b.round⟩ }) := by
+    unfold makeVote
+    simp only [h2]
+    have : (decide (b.round > s.lastVoted) && true) = true := by simp; omega
+    simp only [this, if_true]
+  rw [hmv]
+  simp only
+  apply ext_hist_mem (ext_sendVote c _ _)
+  simp
+
+
+/-- Round, vote watermark and panic flag are untouched (only store / commit bookkeeping moved). -/
+structure RFrame (s s' : Node) : Prop where
+  round : s'.round = s.round
+  lv : s'.lastVoted = s.lastVoted
+  panic : s'.panic = s.panic
+
+theorem RFrame.trans {a b c : Node} (h1 : RFrame a b) (h2 : RFrame b c) : RFrame a c :=
+  ⟨h2.round.trans h1.round, h2.lv.trans h1.lv, h2.panic.trans h1.panic⟩
+
+theorem rframe_foldCommit (l : List Block) (s : Node) :
+    RFrame s (l.foldl (fun s x => s.emit (.commit x)) s) := by
+  induction l generalizing s with
+  | nil => exact ⟨rfl, rfl, rfl⟩
+  | cons x l ih => exact RFrame.trans (b := s.emit (.commit x)) ⟨rfl, rfl, rfl⟩ (ih _)
+
+theorem rframe_commit_ok (c : Committee) (s : Node) (b : Block) (hok : (commit c s b).2 = true) :
+    RFrame s (commit c s b).1 := by
+  by_cases h : Gen.alreadyCommitted b.round s.lastCommitted
+  · simp only [commit, h, if_true]; exact ⟨rfl, rfl, rfl⟩
+  · simp only [commit, h, if_false] at hok ⊢
+    split
+    · rename_i hw; rw [hw] at hok; simp at hok
+    · exact ⟨rfl, rfl, rfl⟩
+    · exact RFrame.trans (b := { s with lastCommitted := b.round }) ⟨rfl, rfl, rfl⟩ (rframe_foldCommit _ _)
+
+theorem rframe_beforeCommit (s : Node) (b0 b1 b : Block) : RFrame s (beforeCommit s b0 b1 b) :=
+  ⟨rfl, rfl, rfl⟩
+
+theorem rframe_afterStore (s : Node) (b0 b1 b : Block) : RFrame s (afterStore s b0 b1 b) := ⟨rfl, rfl, rfl⟩
+
+/-- With both ancestors at hand, a block of the node's round that the node has not voted past and
+that satisfies safety rule 2 is voted for. -/
+theorem processBlockTail_votes (c : Committee) (s : Node) (b0 b1 b : Block) (h4 : Inv4 s)
+    (hpar : b.qc.isGenesis = true ∨ (s.store.lookup b.parent).isSome = true)
+    (hb0 : b0 = Block.genesis ∨ ∃ d, (d, b0) ∈ s.store)
+    (hr : b.round = s.round) (hlv : s.lastVoted < b.round) (h2 : safetyRule2 b = some true) :
+    Out.voted b ∈ (processBlockTail c s b0 b1 b).hist := by
+  unfold processBlockTail
+  split
+  · have h4bc : Inv4 (beforeCommit s b0 b1 b) :=
+      inv4_emit _ _ (inv4_mempoolCleanup _ _ (inv4_afterStore s b0 b1 b h4 hpar))
+    have hb0' : b0 = Block.genesis ∨ ∃ d, (d, b0) ∈ (beforeCommit s b0 b1 b).store := by
+      rcases hb0 with rfl | ⟨d, hd⟩
+      · left; rfl
+      · right; exact ⟨d, by simp [beforeCommit, mempoolCleanup, afterStore_store]; right; exact hd⟩
+    have hok := (commit_reaches c _ h4bc b0 hb0').1
+    have fr := RFrame.trans (rframe_beforeCommit s b0 b1 b) (rframe_commit_ok c _ b0 hok)
+    rw [hok]
+    apply voteStage_votes c _ b
+    · rw [fr.panic]; exact h4.noPanic
+    · rw [fr.round]; exact hr
+    · rw [fr.lv]; exact hlv
+    · exact h2
+  · have fr := rframe_afterStore s b0 b1 b
+    apply voteStage_votes c _ b
+    · rw [fr.panic]; exact h4.noPanic
+    · rw [fr.round]; exact hr
+    · rw [fr.lv]; exact hlv
+    · exact h2
+
+end HS
+
+namespace HS
+open Node
+
+theorem processBlock_votes (c : Committee) (s : Node) (b b1 b0 : Block) (h4 : Inv4 s)
+    (hp1 : (getParent c s b).2 = .found b1) (hp0 : (getParent c s b1).2 = .found b0)
+    (hr : b.round = s.round) (hlv : s.lastVoted < b.round) (h2 : safetyRule2 b = some true) :
+    Out.voted b ∈ (processBlock c s b).hist := by
+  have e1 := (getParent_found_spec c s b b1 hp1)
+  have e0 := (getParent_found_spec c s b1 b0 hp0)
+  unfold processBlock
+  rw [hp1]
+  simp only
+  rw [e1.1, hp0]
+  simp only
+  rw [e0.1]
+  apply processBlockTail_votes c s b0 b1 b h4
+  · rcases e1.2 with ⟨hg, _⟩ | hl
+    · left; exact hg
+    · right; rw [hl]; rfl
+  · rcases e0.2 with ⟨_, rfl⟩ | hl
+    · left; rfl
+    · right; exact ⟨_, mem_of_lookup hl⟩
+  · exact hr
+  · exact hlv
+  · exact h2
+
+theorem processQC_round_lv (s : Node) (qc : QC) :
+    (s.processQC qc).round = max s.round (qc.round + 1) ∧ (s.processQC qc).lastVoted = s.lastVoted := by
+  unfold processQC updateHighQC advanceRound
+  split <;> split <;> simp [emit] <;> omega
+
+/-- THE GOOD CASE OF VOTING.  A node that has not moved past round `b.round`, has not voted or timed
+out in it, and receives from the round's leader a verified block `b` that directly extends its QC
+(`b.qc.round + 1 = b.round`, no TC), whose batches it holds and whose parent and grandparent it has
+stored, signs a vote for `b`. -/
+theorem handleProposal_votes (c : Committee) (s : Node) (b b1 b0 : Block) (h4 : Inv4 s)
+    (hl : b.author = c.leader b.round) (hv : b.verify c = .ok ())
+    (hpay : ∀ d ∈ b.payload, d ∈ s.avail)
+    (hp1 : (getParent c s b).2 = .found b1) (hp0 : (getParent c s b1).2 = .found b0)
+    (htc : b.tc = none) (hdir : b.qc.round + 1 = b.round)
+    (hround : s.round ≤ b.round) (hlv : s.lastVoted < b.round) :
+    Out.voted b ∈ (s.handleProposal c b).hist := by
+  unfold handleProposal
+  have hne : (b.author != c.leader b.round) = false := by simp [hl]
+  simp only [hne, Bool.false_eq_true, if_false, hv]
+  have hs := processQC_store s b.qc
+  have hrl := processQC_round_lv s b.qc
+  have hadv : (s.processQC b.qc).advanceTC b.tc = s.processQC b.qc := by rw [htc]; rfl
+  rw [hadv]
+  have h41 : Inv4 (s.processQC b.qc) := inv4_processQC s b.qc h4
+  unfold proposalTail payloadVerify
+  have hmiss : (b.payload.filter (fun d => !(s.processQC b.qc).avail.contains d)) = [] := by
+    rw [hs.2]
+    apply List.filter_eq_nil_iff.mpr
+    intro d hd
+    simp [hpay d hd]
+  simp only [hmiss, List.isEmpty_nil, if_true]
+  apply processBlock_votes c _ b b1 b0 h41
+    (getParent_congr c s _ b hs.1 hs.2 b1 hp1) (getParent_congr c s _ b1 hs.1 hs.2 b0 hp0)
+  · rw [hrl.1]; omega
+  · rw [hrl.2]; exact hlv
+  · unfold safetyRule2
+    simp [htc, Gen.viaQC, hdir]
 
 end HS
